@@ -110,6 +110,10 @@ def py_val(j: Any) -> Any:
             return Plain(j["plain"])
         if "anyeq" in j:
             return AlwaysEq(j["anyeq"])
+        if "box" in j:
+            return LazyBox(py_val(j["box"]))
+        if "badeq" in j:
+            return BadEq(j["badeq"])
         if "f" in j:
             return float(j["f"])        # an integral float (exact): loop states far from the unit scale
     raise ValueError(f"bad value encoding: {j!r}")
@@ -144,6 +148,26 @@ class AlwaysEq:
         return f"AlwaysEq({self.n!r})"
 
 
+class BadEq:
+    """A value whose comparison RAISES (a handle that refuses to be compared, a lazily-connected proxy): RuntimeError, not the TypeError /
+    ValueError that array-likes raise."""
+
+    def __init__(self, n: Any) -> None:
+        self.n = n
+
+    def __eq__(self, other: Any) -> bool:
+        raise RuntimeError("this handle cannot be compared")
+
+    def __ne__(self, other: Any) -> bool:
+        raise RuntimeError("this handle cannot be compared")
+
+    def __hash__(self) -> int:
+        return hash(("BadEq", self.n))
+
+    def __repr__(self) -> str:
+        return f"BadEq({self.n!r})"
+
+
 class LazyBox:
     """A VALUE that happens to be awaitable (a lazy handle, a future-like result object): a plain function returning it produced this
     object, not what awaiting it would give."""
@@ -173,6 +197,8 @@ def enc_val(v: Any, _depth: int = 0) -> Any:
         return {"box": enc_val(v.v, _depth + 1)}
     if type(v) is AlwaysEq:
         return {"anyeq": v.n}
+    if type(v) is BadEq:
+        return {"badeq": v.n}
     if v is None or isinstance(v, (bool, int, str)):
         return v
     if v is _EMIT_SENTINEL:
